@@ -203,10 +203,10 @@ def jobs(tier, mode="c09"):
             for M in sorted({2, 3, n, 200}):
                 for gf in (1.5, 2.0):
                     cfgs.append((n, 1, M, gf, 1))
-        cfgs += [(5, 1, 3, 1.5, 1), (5, 1, 200, 2.0, 1), (5, 1, 4, 1.5, 1)]
+        cfgs += [(5, 1, 3, 1.5, 1), (5, 1, 200, 2.0, 1), (5, 1, 4, 1.5, 1), (5, 1, 5, 1.5, 1), (6, 1, 3, 1.5, 1)]
         cfgs += [(4, 1, 200, 1.5, 2)]
         for m in (2, 3):
-            for n in range(2 * m, 9 if m == 2 else 11):
+            for n in range(2 * m, 10 if m == 2 else 12):
                 for M in sorted({2 * m, 2 * m + 1, n, 200}):
                     for gf in (1.5, 2.0):
                         cfgs.append((n, m, M, gf, 1))
